@@ -2,7 +2,10 @@
 
 package flyt
 
-import "context"
+import (
+	"context"
+	"time"
+)
 
 // C08 — the concurrency limit is a hard bound and is fully usable.
 
@@ -204,4 +207,43 @@ func VH_C08_rerun() {
 	case c2 < c1:
 		vCover("limit-lowered-between-runs")
 	}
+}
+
+// the bound holds while items wait between retry attempts (virtual clock): an item sleeping in its
+// retry wait, of ANY length, does not entitle the batch to more than c executions in flight — every
+// execution takes (symbolic) time, so whatever was started during the wait may still be running
+// when the wait ends
+func VH_C08_retryWait() {
+	vUnwind(24)
+	m := &bMon{}
+	m.n, m.c, m.ctx = vParam("n", 3), vParam("c", 2), vNewCtx()
+	m.firstFail, m.cancelAt = -1, -1
+	w := vNondet[time.Duration]("w")
+	vAssume(w > 0 && w <= 1<<40)
+	d := vNondet[time.Duration]("execDur")
+	vAssume(d > 0 && d <= 1<<40)
+	attempts := [bMax]int{}
+	exec := func(ctx context.Context, item Result) (Result, error) {
+		k := bIndex(item)
+		fail := false
+		vMonC(1, func() {
+			attempts[k]++
+			m.inflight++
+			vAssert(m.inflight <= m.c, "never-more-than-c-executions-in-flight")
+			fail = k == 0 && attempts[k] == 1
+		})
+		if !fail {
+			time.Sleep(d)
+		}
+		vMonC(2, func() { m.inflight-- })
+		if fail {
+			vCover("item-waits-before-its-retry")
+			return Result{}, vNewErr()
+		}
+		return item, nil
+	}
+	b := bNode(m, exec).WithMaxRetries(2).WithWait(w)
+	_, err := Run(m.ctx, b, NewSharedStore())
+	vAssert(err == nil && m.posts == 1, "batch-with-retry-waits-completes")
+	vCover("retry-wait-bound")
 }
